@@ -94,15 +94,20 @@ def main():
     try:
         rc, o = sh("git -C /repo apply %s" % patch)
         if rc != 0:
-            print("cannot apply to /repo:", o)
-            return 2
+            # /repo has moved on (fix: commits) since the patch was written: try a 3-way merge
+            rc, o = sh("git -C /repo apply --3way %s" % patch)
+            if rc != 0 or "conflict" in o.lower():
+                sh("git -C /repo reset -q && git -C /repo checkout -- .")
+                print("cannot apply to /repo:", o)
+                return 2
+            ran.append("patch applied to current /repo with git apply --3way (tree has moved on since it was written)")
         for c in checks:
             t0 = time.time()
             rc, o = sh("./check %s --tier %s" % (c, tier), cwd="/verif", timeout=7200)
             sigs = [l.strip()[len("signature: "):] for l in o.splitlines() if l.strip().startswith("signature: ")]
             det[c] = {"exit": rc, "signatures": sigs[:8], "wall_s": round(time.time() - t0, 1), "tail": o[-400:] if rc not in (0, 1) else ""}
     finally:
-        sh("git -C /repo checkout -- .")
+        sh("git -C /repo reset -q && git -C /repo checkout -- .")
     result["detection"] = det
     result["detected"] = any(d["exit"] == 1 for d in det.values())
     # restore evidence of the unchanged tree is the caller's job (re-run ./check)
